@@ -14,6 +14,7 @@ from simkit.core import EventLog, HarnessError, ddmin_lists, digest
 from simkit.simtime import CLOCK
 
 PROP = "C10"
+ISOLATE_RUNS = True  # every run in a forked copy of the worker (simkit.core.run_one)
 LEVEL = "fault_enumeration"
 BUDGET_S = {"quick": 420, "thorough": 1800}
 CHUNK = 25
@@ -116,8 +117,10 @@ class Session:
 
         self.lk = lk
         self.md = md
-        kn = plan["knobs"]
+        kn = dict(plan["knobs"])
         self.transport = plan["transport"]
+        if self.transport == "uart" and plan.get("long_props", True):
+            kn["long_props"] = True
         self.core = md.MbootCore(plan["max_packet"], kn)
         if self.transport == "uart":
             self.engine = md.UartDevice(self.core, kn)
@@ -176,6 +179,8 @@ class OpSpec:
 
     def n_frames(self) -> int:
         """Upper estimate of frames/reports exchanged, with the packet size the host actually uses."""
+        if self.name == "property_list":
+            return 260
         ln = self.op.get("len", 0) + self.op.get("count", 0)
         mult = 3 if (self.s.transport == "hid" and self.name == "read_memory") else 2
         return 12 + _frames(ln, min(self.host_mp(), self.s.core.max_packet)) * mult
@@ -350,6 +355,22 @@ class OpSpec:
             self.call = lambda: mb.update_life_cycle(o["value"])
             self.expected_hist = [("update_life_cycle", o["value"])]
             self.expect_ret = ("bool",)
+        elif n == "property_list":
+            # the decoded listing of the device's properties: a function of what the device answers, whatever was
+            # decoded before in this process
+            self.call = lambda: [[p.tag, type(p).__name__, str(p)] for p in mb.get_property_list()]
+            self.expected_hist = None
+            self.expect_ret = ("listing",)
+            self.skip_status_mirror = True
+            self.frames = 260
+        elif n == "decode_property":
+            # a property of *another* board (a family whose database entry overrides some property tags) is decoded
+            from spsdk.mboot.properties import parse_property_value
+
+            self.call = lambda: str(parse_property_value(o["tag"], [o["value"]], None, o["family"]))
+            self.expected_hist = []
+            self.expect_ret = ("any",)
+            self.skip_status_mirror = True
         elif n == "reset":
             self.call = lambda: mb.reset(timeout=o.get("timeout", 100), reopen=True)
             self.expected_hist = [("reset",)]
@@ -514,11 +535,18 @@ class Run:
         if spec.name == "load_image":
             success = outcome[0] == "ret" and outcome[1] is True
 
-        if success and not extra_fault and not (spec.name == "reset" and listed_fault):
+        # an earlier call of this session met a link fault and the session went on without a reopen: host and device may
+        # be out of step, so a later call may fail - but it must never report success with wrong data either
+        tainted = bool(getattr(s, "tainted", False))
+        if tainted:
+            self.probe("op_on_a_session_that_met_a_fault_earlier")
+        # (load_image has no command and no response: on a session that is out of step its data packets may be taken by
+        # the device for the data phase it is still in, and no host can tell - judged on untainted sessions only)
+        if success and not extra_fault and not (spec.name == "reset" and (listed_fault or tainted)) and not (spec.name == "load_image" and tainted):
             # reset documents "no response" as success (the device resets before answering), so under a
             # fault its True says nothing about the device; it is judged in the fault-free configuration only
-            self.check_success(s, spec, outcome[1], hist, datas, where, exact=not listed_fault)
-        if not listed_fault and not extra_fault:
+            self.check_success(s, spec, outcome[1], hist, datas, where, exact=not (listed_fault or tainted))
+        if not listed_fault and not extra_fault and not tainted:
             self.check_exact(s, spec, outcome, hist, datas, statuses, status_code, where)
 
         if listed_fault or extra_fault or outcome[0] != "ret":
@@ -542,6 +570,14 @@ class Run:
         if clean_refusal:
             self.probe("session_continues_after_device_error_status")
         elif listed_fault or extra_fault or outcome[0] in ("spsdk_exc", "other_exc", "unbounded") or status_code == 10004:
+            if self.plan.get("continue_after_fault") and s.transport == "uart" and outcome[0] in ("ret", "spsdk_exc") and s.mb.is_opened:
+                # the caller simply goes on with the same port. Whatever was still on the wire arrives in the idle time
+                # before the next call (a late answer included: SerialDevice purges its input before every frame)
+                CLOCK.advance(30_000_000)
+                s.tainted = True
+                self.probe("session_continues_after_link_fault")
+                return
+            s.tainted = False
             # the history closes: drain the link, reopen
             try:
                 s.close()
@@ -558,6 +594,8 @@ class Run:
         """The call reported success: its postconditions must hold, fault or no fault."""
         oracle = "wrong-success"
         kind = spec.expect_ret[0]
+        if kind in ("listing", "any"):
+            return
         if kind == "bytes":
             exp = spec.expect_ret[1]
             if exp is None or bytes(ret) != exp:
@@ -579,6 +617,25 @@ class Run:
     def check_exact(self, s, spec, outcome, hist, datas, statuses, status_code, where) -> None:
         """No fault in this operation: everything must be exactly what the protocol defines."""
         oracle = "fault-free"
+        if spec.expect_ret[0] == "any" and outcome[0] == "ret":
+            return
+        if spec.expect_ret[0] == "listing" and outcome[0] == "ret":
+            listing = [e for e in outcome[1] if e[0] not in (10, 22)]  # (the two writable properties may have been set)
+            first = getattr(s, "first_listing", None)
+            if first is None:
+                s.first_listing = listing
+                want = dict(s.core.props)
+                for t_, _ty, _txt in listing:
+                    if t_ not in want:
+                        self.violation(oracle, "property_list:unknown-tag", f"{where}: the listing contains property {t_} which the device does not have")
+                missing = [t_ for t_ in want if t_ < 0x23 and t_ not in [e[0] for e in outcome[1]]]
+                if missing:
+                    self.violation(oracle, "property_list:missing", f"{where}: the listing lacks the properties {missing} which the device answered")
+            elif listing != first:
+                diff = [(a, b) for a, b in zip(listing, first) if a != b][:2]
+                self.violation(oracle, "property_list:depends-on-history", f"{where}: the same device answers are listed differently than before in this session: {diff or (len(listing), len(first))}")
+            self.probe("property_listing_compared")
+            return
         if outcome[0] != "ret":
             if outcome[0] == "spsdk_exc" and s.mb._cmd_exception and any(st != 0 for st in statuses):
                 pass  # cmd_exception=True: a device error status is raised, as documented
@@ -784,6 +841,7 @@ def gen_op(rng: random.Random, mp: int, transport: str, cap: int) -> dict:
         + ["kp_enroll", "kp_set_intrinsic_key", "kp_write_nonvolatile", "kp_read_nonvolatile", "kp_set_user_key", "kp_write_key_store", "kp_read_key_store"]
         + ["generate_key_blob", "load_image", "load_image", "fuse_program", "fuse_read", "update_life_cycle", "execute", "call", "configure_memory", "reliable_update"]
         + ["flash_erase_all", "flash_erase_all_unsecure", "reset"]
+        + ["property_list", "decode_property"]
     )
     base = rng.choice([RAM, RAM, FLASH, 0x6000_0000])
     off = rng.choice([0, 0, 4, 0x100, 0x1000, rng.randrange(0, 0x8000), 0xFFFF0])
@@ -809,6 +867,8 @@ def gen_op(rng: random.Random, mp: int, transport: str, cap: int) -> dict:
         o.update(addr=(addr & ~3) if rng.random() < 0.9 else addr | 1, len=ln if rng.random() < 0.9 else ln + 1, pattern=rng.choice([0, U32, 0xA5A5A5A5, rng.randrange(1 << 32)]))
     elif name == "flash_erase_region":
         o.update(addr=addr, len=rng.choice([0x100, 0x1000, rng.randint(1, 0x2000)]))
+    elif name == "decode_property":
+        o.update(tag=rng.choice([0x0A, 0x14, 0x15, 0x16]), value=rng.choice([0, 1, 2]), family=rng.choice(["kw45b41z8", "k32w148"]))
     elif name == "get_property":
         o.update(tag=rng.choice([1, 2, 3, 4, 5, 7, 10, 11, 12, 14, 15, 17, 18, 22, 6, 25, 0x40, 0xC8, 0x23, 0xFE]), index=rng.choice([0, 0, 1]))
     elif name == "set_property":
@@ -915,6 +975,22 @@ def gen_plan(family: str, i: int, rng: random.Random, tier: str) -> dict:
     plan = {"transport": transport, "max_packet": mp, "knobs": knobs, "ops": ops, "faults": []}
     if family == "control":
         return plan
+    if family == "props":
+        # property decoding: listings interleaved with decodes for other boards' families, reads and writes
+        plan["ops"] = []
+        for _ in range(rng.randint(2, 8)):
+            kind = rng.choice(["property_list"] * 3 + ["decode_property"] * 3 + ["get_property"] * 2 + ["set_property"])
+            o = {"op": kind}
+            if kind == "decode_property":
+                o.update(tag=rng.choice([0x0A, 0x14, 0x15, 0x16]), value=rng.choice([0, 1, 2]), family=rng.choice(["kw45b41z8", "k32w148"]))
+            elif kind == "get_property":
+                o.update(tag=rng.choice([1, 2, 7, 10, 11, 12, 0x14, 0x15, 0x16, 18, 0x40, 0xC8]), index=0)
+            elif kind == "set_property":
+                o.update(tag=rng.choice([10, 22, 0x40]), value=rng.choice([0, 1, 7]))
+            plan["ops"].append(o)
+        return plan
+    if family in ("faulty", "extra"):
+        plan["continue_after_fault"] = rng.random() < 0.35
     if family == "faulty":
         nf = rng.choice([1, 1, 1, 2, 2, 3, 4])
         plan["faults"] = [gen_fault(rng, nops, transport, ops, mp, extra_ok=False) for _ in range(nf)]
@@ -933,10 +1009,24 @@ def gen_plan(family: str, i: int, rng: random.Random, tier: str) -> dict:
     raise HarnessError(family)
 
 
+_WARM = False
+
+
+def warm_up() -> None:
+    """Runs are executed in forked copies of the worker: do whatever is lazily initialised on first use once, here."""
+    global _WARM
+    if _WARM:
+        return
+    _WARM = True
+    for i, fam in enumerate(["control", "faulty", "sdp_control", "sdp_faulty", "sdps", "control", "faulty"]):  # (not "props": its decodes are what a run must do itself)
+        execute(gen_plan(fam, i, random.Random(3000 + i), "quick"))
+    CLOCK.reset()
+
+
 def families(tier: str):
     if tier == "quick":
-        return [("control", 1500), ("faulty", 4000), ("extra", 300), ("sweep", 80), ("sdp_control", 600), ("sdp_faulty", 1200), ("sdps", 150)]
-    return [("control", 40000), ("faulty", 110000), ("extra", 8000), ("sweep", 1500), ("sdp_control", 15000), ("sdp_faulty", 40000), ("sdps", 2000)]
+        return [("control", 1500), ("faulty", 4000), ("extra", 300), ("sweep", 80), ("props", 200), ("sdp_control", 600), ("sdp_faulty", 1200), ("sdps", 150)]
+    return [("control", 40000), ("faulty", 110000), ("extra", 8000), ("sweep", 1500), ("props", 5000), ("sdp_control", 15000), ("sdp_faulty", 40000), ("sdps", 2000)]
 
 
 def reductions(plan: dict):
